@@ -17,6 +17,7 @@ import (
 	"go/constant"
 	"go/token"
 	"go/types"
+	"regexp"
 	"sort"
 	"strings"
 
@@ -898,10 +899,25 @@ func (it *interp) memStore(st *state, k string, v AV) {
 	st.mem[k] = v
 }
 
+var siteRe = regexp.MustCompile(`@[^#, ()]*`)
+
+// stripSites removes call-site ids from a key ("call:f@fn.b1i2#0" → "call:f#0").
+func stripSites(k string) string { return siteRe.ReplaceAllString(k, "") }
+
 func (it *interp) valLookup(keys ...string) (AV, bool) {
+	if len(it.opts.Val) == 0 {
+		return nil, false
+	}
 	for _, k := range keys {
 		if v, ok := it.opts.Val[k]; ok {
 			return v, true
+		}
+	}
+	for _, k := range keys {
+		if strings.Contains(k, "@") {
+			if v, ok := it.opts.Val[stripSites(k)]; ok {
+				return v, true
+			}
 		}
 	}
 	return nil, false
@@ -1336,6 +1352,9 @@ func (it *interp) binop(op token.Token, x, y AV, t types.Type) AV {
 			case *Addr, *Closure, *FuncV, *StructV:
 				return true
 			case *Expr:
+				if a.Op == "call" && (strings.HasPrefix(a.Name, "fmt.Errorf@") || strings.HasPrefix(a.Name, "errors.New@")) {
+					return true
+				}
 				return a.Op == "makechan" || a.Op == "makemap" || a.Op == "makeslice"
 			}
 			return false
@@ -1469,6 +1488,12 @@ func (it *interp) doCall(st *state, fr *frame, in *ssa.Call) bool {
 	ev := it.callEvent(st, fr, cc, in)
 	if ev.Fn != nil && len(ev.Fn.Blocks) > 0 && it.opts.Inline != nil && it.opts.Inline(ev.Fn, len(st.frames)) {
 		it.pushFrame(st, ev, in, false)
+		return true
+	}
+	if folded := foldPure(ev); folded != nil {
+		ev.Res = folded
+		st.events = append(st.events, ev)
+		fr.env[in] = folded
 		return true
 	}
 	res := AV(&Expr{Op: "call", Name: ev.Callee + "@" + it.siteID(in), Args: ev.Args, T: in.Type()})
@@ -1614,4 +1639,37 @@ func sortedKeys(m map[string]bool) []string {
 	}
 	sort.Strings(s)
 	return s
+}
+
+// foldPure folds calls of a few pure standard-library string predicates on constant arguments.
+func foldPure(ev *Event) AV {
+	if len(ev.Args) != 2 {
+		if len(ev.Args) == 1 {
+			if a, ok := avStr(ev.Args[0]); ok {
+				switch ev.Callee {
+				case "strings.ToLower":
+					return cStr(strings.ToLower(a))
+				case "strings.TrimSpace":
+					return cStr(strings.TrimSpace(a))
+				}
+			}
+		}
+		return nil
+	}
+	a, ok1 := avStr(ev.Args[0])
+	b, ok2 := avStr(ev.Args[1])
+	if !ok1 || !ok2 {
+		return nil
+	}
+	switch ev.Callee {
+	case "strings.HasPrefix":
+		return cBool(strings.HasPrefix(a, b))
+	case "strings.HasSuffix":
+		return cBool(strings.HasSuffix(a, b))
+	case "strings.Contains":
+		return cBool(strings.Contains(a, b))
+	case "strings.EqualFold":
+		return cBool(strings.EqualFold(a, b))
+	}
+	return nil
 }
